@@ -25,6 +25,7 @@ LEVEL_TEXT = ("for 154 (quick) / 1400 (thorough) base configurations (5 methods 
 LEVEL_NOTE = "trusted: the gate model in this file (ambiguous situations - ties in a sort window, stddev together with filters, no positive-weight survivor in a gradient - are counted and not judged)"
 ANCHOR_FILES = ["src/ropt/optimization/_optimizer.py", "src/ropt/plugins/plan/optimizer.py", "src/ropt/plugins/plan/evaluator.py", "src/ropt/plugins/realization_filter/default.py",
                 "src/ropt/results/_constraint_info.py", "src/ropt/plugins/function_estimator/default.py", "src/ropt/ensemble_evaluator/_ensemble_evaluator.py"]
+EXECUTION_COUNTERS = ["nan_fault_runs", "max_functions_runs", "user_exception_runs"]   # executions of the oracle inside the cases (reported as coverage.evaluations)
 RULE = ("case = (base configuration, fault kind); inside: all fault positions of that kind; a faulted run is non-trivial if the fault was actually reached; distinct key = (case, fault); "
         "monitor_counters: runs per fault kind, expected TOO_FEW runs, budget checks")
 ASSUMPTIONS = ["evaluators are deterministic, so a run with max_functions follows the unlimited run up to the stop", "realization weights are positive in this check (zero weights are C01/C06 territory)"]
